@@ -34,6 +34,14 @@ def rank_main():
         spec['cfg'][k] = tuple(spec['cfg'][k])
     dist.init_process_group('gloo', init_method='file://' + initfile, rank=rank, world_size=world)
     events = []
+    stream = open(os.environ['KVERIF_TRACE_FILE'], 'a') if os.environ.get('KVERIF_TRACE_FILE') else None
+
+    def emit(ev):
+        events.append(ev)
+        if stream is not None:
+            # written before the operation is handed to the backend: survives a hang / kill of this rank
+            stream.write(json.dumps(ev) + '\n')
+            stream.flush()
 
     def ranks_of(group):
         return tuple(range(world)) if group is None else tuple(dist.get_process_group_ranks(group))
@@ -41,16 +49,24 @@ def rank_main():
     orig_ar, orig_bc = dist.all_reduce, dist.broadcast
 
     def all_reduce(tensor, op=dist.ReduceOp.SUM, group=None, async_op=False):
-        events.append(dict(kind='allreduce', group_ranks=ranks_of(group), shape=tuple(tensor.shape), dtype=str(tensor.dtype), root=None,
+        emit(dict(kind='allreduce', group_ranks=ranks_of(group), shape=tuple(tensor.shape), dtype=str(tensor.dtype), root=None,
                            harness=getattr(simdist._tls, 'harness', False)))
         return orig_ar(tensor, op=op, group=group, async_op=async_op)
 
     def broadcast(tensor, src=None, group=None, async_op=False, group_src=None):
-        events.append(dict(kind='broadcast', group_ranks=ranks_of(group), shape=tuple(tensor.shape), dtype=str(tensor.dtype), root=src,
+        emit(dict(kind='broadcast', group_ranks=ranks_of(group), shape=tuple(tensor.shape), dtype=str(tensor.dtype), root=src,
                            harness=getattr(simdist._tls, 'harness', False)))
         return orig_bc(tensor, src=src, group=group, async_op=async_op)
 
     dist.all_reduce, dist.broadcast = all_reduce, broadcast
+    orig_ng = dist.new_group
+
+    def new_group(ranks=None, *a, **kw):
+        if stream is not None:
+            stream.write(json.dumps(dict(kind='new_group', ranks=None if ranks is None else list(ranks))) + '\n')
+            stream.flush()
+        return orig_ng(ranks, *a, **kw)
+    dist.new_group = new_group
     rec = scenario.rank_fn(spec)(rank, world)
     dist.barrier()
     with open(outfile, 'wb') as f:
@@ -68,7 +84,8 @@ def run_gloo(spec, world, timeout=120):
         initfile = os.path.join(tmp, 'init')
         env = dict(os.environ, PYTHONPATH=VERIF_ROOT + os.pathsep + os.environ.get('PYTHONPATH', ''), OMP_NUM_THREADS='1')
         procs = [subprocess.Popen([sys.executable, '-c', 'from kverif.gloo_xval import rank_main; rank_main()', specfile, str(r), str(world), initfile,
-                                   os.path.join(tmp, f'out{r}.pkl')], cwd=VERIF_ROOT, env=env, stdout=subprocess.PIPE, stderr=subprocess.STDOUT, text=True)
+                                   os.path.join(tmp, f'out{r}.pkl')], cwd=VERIF_ROOT, env=dict(env, PYTHONHASHSEED=str(7919 * (r + 1))),
+                                  stdout=subprocess.PIPE, stderr=subprocess.STDOUT, text=True)
                  for r in range(world)]
         outs = []
         ok = True
@@ -92,6 +109,99 @@ def run_gloo(spec, world, timeout=120):
     finally:
         import shutil
         shutil.rmtree(tmp, ignore_errors=True)
+
+
+def run_gloo_traced(spec, world, hashseeds, timeout=90):
+    """Real gloo ranks as separate interpreters with DIFFERENT hash seeds (as torchrun/mpirun start them); every rank
+    streams the collectives it issues to its own log before handing them to the backend. Returns (finished, err, traces):
+    the logs are returned also when the run hangs and is killed (a hang is then judged from the logs, not from the clock)."""
+    tmp = tempfile.mkdtemp(prefix='kverif-gloo-')
+    try:
+        specfile = os.path.join(tmp, 'spec.json')
+        with open(specfile, 'w') as f:
+            json.dump(spec, f)
+        initfile = os.path.join(tmp, 'init')
+        procs = []
+        for r in range(world):
+            env = dict(os.environ, PYTHONPATH=VERIF_ROOT + os.pathsep + os.environ.get('PYTHONPATH', ''), OMP_NUM_THREADS='1',
+                       PYTHONHASHSEED=str(hashseeds[r]), KVERIF_TRACE_FILE=os.path.join(tmp, f'trace{r}.jsonl'))
+            procs.append(subprocess.Popen([sys.executable, '-c', 'from kverif.gloo_xval import rank_main; rank_main()', specfile, str(r), str(world), initfile,
+                                           os.path.join(tmp, f'out{r}.pkl')], cwd=VERIF_ROOT, env=env, stdout=subprocess.PIPE, stderr=subprocess.STDOUT, text=True))
+        err = None
+        outs = []
+        import time
+        t_end = time.time() + timeout
+        for p in procs:
+            try:
+                o, _ = p.communicate(timeout=max(1, t_end - time.time()))
+                outs.append(o)
+                if p.returncode != 0 and err is None:
+                    err = 'gloo rank failed: ' + (o or '')[-400:]
+            except subprocess.TimeoutExpired:
+                err = err or 'gloo run timed out'
+                break
+        for q in procs:
+            if q.poll() is None:
+                q.kill()
+                try:
+                    q.communicate(timeout=5)
+                except Exception:  # noqa: BLE001
+                    pass
+        traces = []
+        for r in range(world):
+            path = os.path.join(tmp, f'trace{r}.jsonl')
+            evs = []
+            if os.path.exists(path):
+                for ln in open(path):
+                    try:
+                        evs.append(json.loads(ln))
+                    except ValueError:
+                        pass
+            traces.append(evs)
+        return err is None, err, traces
+    finally:
+        import shutil
+        shutil.rmtree(tmp, ignore_errors=True)
+
+
+def match_traces(traces, finished):
+    """Offline matcher over the per-rank logs: every group's members must have issued the same sequence of
+    (kind, shape, dtype, root) on that group - position by position over the common prefix, and the same number of
+    operations if all ranks finished; new_group calls must be the same sequence on all ranks. Returns list of strings."""
+    bad = []
+    W = len(traces)
+    ng = [[tuple(e['ranks']) if e['ranks'] is not None else None for e in t if e['kind'] == 'new_group'] for t in traces]
+    for r in range(1, W):
+        n = min(len(ng[0]), len(ng[r]))
+        if ng[0][:n] != ng[r][:n] or (finished and len(ng[0]) != len(ng[r])):
+            bad.append(f'new_group sequences differ between rank 0 {ng[0][:6]} and rank {r} {ng[r][:6]}')
+            break
+    per = {}
+    for r, t in enumerate(traces):
+        for e in t:
+            if e['kind'] == 'new_group':
+                continue
+            per.setdefault(tuple(e['group_ranks']), {}).setdefault(r, []).append((e['kind'], tuple(e['shape']), e['dtype'], e['root']))
+    compared = 0
+    for g, by_rank in sorted(per.items()):
+        members = [r for r in g]
+        seqs = {r: by_rank.get(r, []) for r in members}
+        base = members[0]
+        for r in members[1:]:
+            n = min(len(seqs[base]), len(seqs[r]))
+            compared += n
+            for i in range(n):
+                if seqs[base][i] != seqs[r][i]:
+                    bad.append(f'group {list(g)}: operation #{i} is {seqs[base][i]} on rank {base} but {seqs[r][i]} on rank {r}')
+                    break
+            else:
+                if finished and len(seqs[base]) != len(seqs[r]):
+                    bad.append(f'group {list(g)}: rank {base} issued {len(seqs[base])} operations, rank {r} {len(seqs[r])}')
+            if bad:
+                break
+        if bad:
+            break
+    return bad, compared
 
 
 def compare(spec, world, sim_run, gloo_res):
